@@ -2,6 +2,7 @@ import TinsModel.Dns.Refine
 import TinsModel.Dns.Compose
 import TinsModel.Dns.Update
 import TinsModel.Dns.Oracle
+import TinsModel.Dns.SoaLemmas
 /-
   Property C10 — DNS messages stay coherent under parsing, editing and name compression.
   Only the property theorems live here; the model is `TinsModel/Dns/Model.lean`, the specification
@@ -394,5 +395,39 @@ theorem oracle_classifies_record {r : SRec} (hl : r.legal = true) (txt : Bytes) 
 
 theorem oracle_classifies_query {q : SQuery} (hl : q.legal = true) : specOfQuery q.toNew = some q :=
   specOfQuery_toNew hl
+
+/-! ## 8. The typed SOA accessor `DNS::soa_record(const uint8_t*, uint32_t)` / `soa_record(const DNS::resource&)` -/
+
+/-- **soa_init_safe** — `soa_record::init` on ANY byte string (a caller's buffer, or the data string a section getter
+    handed out): the bounded search for each name's terminator, the copy into the temporary string, the walk of
+    `decode_domain_name` over it and the five `read_be<uint32_t>` never touch memory outside the buffer / the string, and
+    the only exceptions are `malformed_packet` (no terminator, label past the end, counters cut short) and
+    `invalid_domain_name` (a length octet with a high bit set, more than 256 octets of text). -/
+theorem soa_init_safe (b : Bytes) :
+    (soaInit b).isFault = false ∧ ∀ e, soaInit b = .throw e → e = .malformedPacket ∨ e = .invalidDomainName :=
+  ⟨Out.within_noFault (soaInit_within b), fun _ h => Out.within_throw (soaInit_within b) h⟩
+
+/-- **soa_roundtrip** — `soa_record(r.serialize())` is `r`: for every record whose two names are legal (labels of 1..63
+    octets, at most 255 octets on the wire, any number of labels) and whose five counters fit 32 bits, whatever follows
+    the serialization in the buffer. -/
+theorem soa_roundtrip (n1 n2 : Name) (h1 : legalName n1 = true) (h2 : legalName n2 = true)
+    (serial refresh retry expire minimum : Nat) (hs : serial < 4294967296) (hf : refresh < 4294967296)
+    (ht : retry < 4294967296) (he : expire < 4294967296) (hm : minimum < 4294967296) (post : Bytes) :
+    soaInit (soaSerialize ⟨textOf n1, textOf n2, serial, refresh, retry, expire, minimum⟩ ++ post) =
+      .ok ⟨textOf n1, textOf n2, serial, refresh, retry, expire, minimum⟩ :=
+  soaInit_serialize n1 n2 h1 h2 serial refresh retry expire minimum hs hf ht he hm post
+
+/-- the defect the fix removed (DESIGN §7 #34, KF-C10-11): the C-string scan of the earlier code leaves a buffer that
+    holds no NUL (`01 61`: one label, no terminator); the fixed code rejects the same bytes.  The witness is replayed on
+    the real code by corpus/C10/kf11-soa-cstring-overread.ops. -/
+theorem soa_unfixed_overread : (soaInitUnfixed [1, 0x61]).isFault = true ∧ soaInit [1, 0x61] = .throw .malformedPacket :=
+  ⟨soaInitUnfixed_faults, soaInit_rejects_unterminated⟩
+
+/-- non-vacuity: `ns.ab.` / `h.ab.` and the counters 1..5 are read back; a pointer in a name and a missing counter are
+    reported with the two exceptions of the statement -/
+example : soaInit [2, 0x6e, 0x73, 2, 0x61, 0x62, 0, 1, 0x68, 2, 0x61, 0x62, 0, 0, 0, 0, 1, 0, 0, 0, 2, 0, 0, 0, 3, 0, 0, 0, 4,
+    0, 0, 0, 5] = .ok ⟨[0x6e, 0x73, 46, 0x61, 0x62], [0x68, 46, 0x61, 0x62], 1, 2, 3, 4, 5⟩ := by decide
+example : soaInit [0xc0, 0x0c, 0, 0, 0, 0, 0, 1] = .throw .invalidDomainName := by decide
+example : soaInit [0, 0, 0, 0, 0, 1] = .throw .malformedPacket := by decide
 
 end Tins.Props.C10
